@@ -994,6 +994,22 @@ def _is_exception(node: ast.AST) -> bool:
     return False
 
 
+def _may_leave_iteration(node: ast.AST) -> bool:
+    """Check if node contains a break or continue that belongs to the enclosing loop.
+
+    Breaks and continues in the body of a nested loop belong to that loop, but those in
+    its else clause do not. Nested function and class definitions are separate scopes.
+    """
+    if isinstance(node, (ast.Break, ast.Continue)):
+        return True
+    if isinstance(node, (ast.FunctionDef, ast.AsyncFunctionDef, ast.ClassDef, ast.Lambda)):
+        return False
+    if isinstance(node, (ast.For, ast.AsyncFor, ast.While)):
+        return any(_may_leave_iteration(child) for child in node.orelse)
+
+    return any(_may_leave_iteration(child) for child in ast.iter_child_nodes(node))
+
+
 def is_blocking(node: ast.AST, parent_type: ast.AST = None) -> bool:
     """Check if a node is impossible to get past.
 
@@ -1035,12 +1051,6 @@ def is_blocking(node: ast.AST, parent_type: ast.AST = None) -> bool:
             if not test_value:
                 return False
 
-            for child in node.body:
-                if isinstance(child, ast.Break):
-                    return False
-                if is_blocking(child, type(node)):
-                    return True
-
     if isinstance(node, ast.For):
         try:
             iterator = literal_value(node.iter)
@@ -1051,17 +1061,10 @@ def is_blocking(node: ast.AST, parent_type: ast.AST = None) -> bool:
 
     if isinstance(node, (ast.For, ast.While)):
         for child in node.body:
+            if _may_leave_iteration(child):
+                return False
             if is_blocking(child, type(node)):
                 return True
-            if is_blocking(child, parent_type):
-                return False
-            if isinstance(child, ast.If) and any(walk(child, (ast.Break, ast.Continue))):
-                try:
-                    test = literal_value(child.test)
-                except ValueError:
-                    return False
-                if test:
-                    return False
 
         if isinstance(node, ast.For):
             return False
